@@ -298,13 +298,15 @@ pub fn monitor_c12(m: &mut Mon, w: &IncWorld, pre: &Snap, op: &Op, ok: bool, pos
     m.check(q.is_none(), &format!("flow_queries: {}", q.unwrap_or_default()));
     if !ok { return; }
     match op {
-        Op::OpenFlow { asset, .. } => {
+        Op::OpenFlow { asset, sender, .. } => {
             let f = post.flow(post.st.counter);
             m.check(f.is_some() && post.st.flows.len() == pre.st.flows.len() + 1, "open_flow succeeded but no new flow is recorded");
             if let Some(f) = f {
                 m.check(d(post.b(SELF_ID, *asset), pre.b(SELF_ID, *asset)) == f.latest().0 as i128,
                     &format!("open_funds: flow records {} but the contract received {} of the flow asset", f.latest().0, d(post.b(SELF_ID, *asset), pre.b(SELF_ID, *asset))));
-                m.check(d(post.b(COLLECTOR_ID, cfg.fee_asset), pre.b(COLLECTOR_ID, cfg.fee_asset)) == cfg.fee as i128, "open_funds: the fee collector did not receive exactly the flow creation fee");
+                // (when the fee collector itself opens the flow its fee comes straight back: all it loses is what the contract keeps for the flow)
+                let want = if *sender == COLLECTOR_ID { -d(post.b(SELF_ID, cfg.fee_asset), pre.b(SELF_ID, cfg.fee_asset)) } else { cfg.fee as i128 };
+                m.check(d(post.b(COLLECTOR_ID, cfg.fee_asset), pre.b(COLLECTOR_ID, cfg.fee_asset)) == want, "open_funds: the fee collector did not receive exactly the flow creation fee");
                 m.check(f.claimed == 0, "open_flow: new flow has a non-zero claimed amount");
             }
         }
@@ -353,6 +355,12 @@ pub fn monitor_c11(m: &mut Mon, w: &IncWorld, pre: &Snap, op: &Op, ok: bool, pos
     m.check(s1 >= s0, "custody: the unaccounted LP surplus decreased");
     let donation = matches!(op, Op::Donate { asset, .. } if *asset == lp);
     if exact && !donation { m.check(s1 == s0, &format!("custody: LP balance moved by {} more than positions and LP flow funds although the operation carried exact funds", s1 - s0)); }
+    // staked LP can be taken out again: the owner of an open position with no rewards pending can close it (only then can Withdraw return it)
+    if let (false, Op::ClosePosition { sender, dur, .. }) = (ok, op) {
+        let has = pre.st.open.get(&w.name(*sender)).map(|v| v.iter().any(|p| p.1 == *dur && p.0 > 0)).unwrap_or(false);
+        let nothing_pending = matches!(pre.rewards.get(sender), Some(Ok(v)) if v.iter().all(|x| x.1 == 0));
+        if has && nothing_pending { m.check(false, &format!("locked: the owner of an open position (unbonding duration {}) with no rewards pending cannot close it", dur)); }
+    }
     if !ok { return; }
     let others_same = |except: &str| -> bool {
         pre.st.open.iter().all(|(k, v)| k == except || post.st.open.get(k) == Some(v))
